@@ -13,7 +13,7 @@ from . import build, core, corpus
 from . import pymodel as M
 
 RULE = ("environment = TZDIR {unset, empty, valid dir, nonexistent, a file} x TZ {unset, empty, X, :X, localtime, :localtime, ::X, "
-        "invalid, absolute path, fixed name, UTC} x LOCALTIME {unset, valid, invalid}; in each child 26 names are loaded "
+        "invalid, absolute path, fixed name, UTC} x LOCALTIME {unset, valid, invalid}; in each child 31 names are loaded "
         "(relative, nested, absolute, file:-relative, file:-absolute, empty, directory, truncated, leap-second file, garbage, "
         "':'-prefixed, with '..', UTC, UTC0, fixed, zero fixed, unreadable as uid nobody) plus local_time_zone() and a "
         "default-constructed zone; expected outcome from the model, data identity by comparing the zone digest with that of the "
@@ -96,7 +96,7 @@ def model_local(env, unreadable_paths=()):
     return zone, model_load(zone, env, unreadable_paths)
 
 
-def leap_file(src):
+def leap_file(src, v1_leaps=True):
     """a valid TZif v2 with one leap-second record in both blocks (what 'right/' files look like)"""
     z = M.TZ(src)
     types = z.raw_types
@@ -113,11 +113,13 @@ def leap_file(src):
 
     def block(tl, ver):
         tr = [(t, i) for t, i in zip(z.times, z.idx) if tl == 8 or -2 ** 31 <= t < 2 ** 31]
-        hdr = b"TZif" + ver + b"\0" * 15 + struct.pack(">6l", 0, 0, 1, len(tr), len(tlist), len(chars))
+        nleap = 1 if (tl == 8 or v1_leaps) else 0
+        hdr = b"TZif" + ver + b"\0" * 15 + struct.pack(">6l", 0, 0, nleap, len(tr), len(tlist), len(chars))
         f = ">l" if tl == 4 else ">q"
         b = b"".join(struct.pack(f, t) for t, _ in tr) + bytes(i for _, i in tr)
         b += b"".join(struct.pack(">lBB", *t) for t in tlist) + chars
-        b += struct.pack(f, 78796800) + struct.pack(">l", 1)
+        if nleap:
+            b += struct.pack(f, 78796800) + struct.pack(">l", 1)
         return hdr + b
     return block(4, b"2") + block(8, b"2") + b"\n" + z.footer.encode("latin1") + b"\n"
 
@@ -143,6 +145,8 @@ def run(prop, tier, seed, replay=None):
         f.write(ny[:len(ny) // 2])
     with open(os.path.join(tzdir, "Leap"), "wb") as f:
         f.write(leap_file(ny))
+    with open(os.path.join(tzdir, "Leap64"), "wb") as f:  # leap records only in the 64-bit block (zic -b slim -L)
+        f.write(leap_file(ny, v1_leaps=False))
     with open(os.path.join(tzdir, "Garbage"), "wb") as f:
         f.write(b"this is not TZif data\n" * 10)
     with open(os.path.join(tzdir, "Empty"), "wb") as f:
@@ -162,7 +166,7 @@ def run(prop, tier, seed, replay=None):
         os.chmod(d, 0o755)
     abs_ny = os.path.join(tzdir, "America/New_York")
     names = ["America/New_York", "Europe/Dublin", "America/Argentina/Ushuaia", abs_ny, "file:America/New_York", "file:" + abs_ny, "", "Dir", "Trunc",
-             "Leap", "Garbage", "Empty", ":America/New_York", ":Colon", "America/../Europe/Dublin", "UTC", "UTC0", "Fixed/UTC+01:00:00",
+             "Leap", "Leap64", "Garbage", "Empty", ":America/New_York", ":Colon", "America/../Europe/Dublin", "UTC", "UTC0", "Fixed/UTC+01:00:00",
              "Fixed/UTC-23:59:59", "Fixed/UTC+00:00:00", "Fixed/UTC+24:00:01", "No/Such/Zone", "file:", "file:/nonexistent/x", "localtime", "Etc/UTC",
              "Secret", "america/new_york", "America/New_York/", os.path.join(tzdir, "Asia/Kolkata")]
     TZDIRS = {"unset": None, "empty": "", "valid": tzdir, "nonexistent": os.path.join(w, "no-such-dir"), "file": afile}
